@@ -1065,6 +1065,10 @@ class Interp:
                 lo = self.expr(ix.lower, env, mod) if ix.lower else None
                 hi = self.expr(ix.upper, env, mod) if ix.upper else None
                 stp = self.expr(ix.step, env, mod) if ix.step else None
+                if lo == 0 and not isinstance(lo, bool):
+                    lo = None
+                if stp == 1 and not isinstance(stp, bool):
+                    stp = None
                 if lo is None and hi is None and stp is None:
                     dims.append(lab)
                 elif lo is None and hi is None and stp == -1:
@@ -1080,7 +1084,7 @@ class Interp:
                         return Unk('slice bounds', e)
                     args = [C(None) if x is None else P(x.poly) for x in sl]
                     poly = alg.mk_fn('slice', B(lab, poly), *args)
-                    dims.append('%s[%s]' % (lab, up(ix)))
+                    dims.append('%s[%s]' % (lab, ':'.join('' if x is None else alg.show(x.poly, 200) for x in sl)))
                 ax += 1
                 continue
             if w is None:         # np.newaxis / None
@@ -1264,6 +1268,19 @@ class Interp:
                 if isinstance(x, Arr) and x.ndim == 1:
                     return Arr(x.dims, alg.mk_fn('argsort', B(x.dims[0], x.poly)), unit=num(1))
                 return Unk('argsort of %r' % (x,), e)
+            if last in ('sort', 'flip', 'cumsum', 'flipud', 'fliplr'):
+                x = self._as_arr(args[0])
+                if isinstance(x, Arr) and x.ndim == 1:
+                    nm = 'rev' if last.startswith('flip') else last
+                    return x.with_(poly=alg.mk_fn(nm, B(x.dims[0], x.poly)))
+                return Unk('np.%s of %r' % (last, x), e)
+            if last in ('multiply', 'add', 'subtract', 'divide', 'true_divide', 'power') and len(args) == 2:
+                opn = {'multiply': ast.Mult, 'add': ast.Add, 'subtract': ast.Sub, 'divide': ast.Div, 'true_divide': ast.Div, 'power': ast.Pow}[last]
+                return self.binop(opn(), args[0], args[1], e)
+            if last == 'square':
+                return self.binop(ast.Pow(), args[0], 2, e)
+            if last == 'negative':
+                return self.binop(ast.Mult(), args[0], -1, e)
             if last == 'arange':
                 n = args[0]
                 lab = _len_label(n.poly) if isinstance(n, Arr) else None
